@@ -3,7 +3,8 @@ import JSight.Model.Include
 `core.WithBannedDirectives` during the scan of a multi-file project: `Model/Include.lean` with the ban checks of
 `core/scan_project.go setCurrentDirective` (a keyword of a banned kind is refused when it is read — after the
 previous directive has been placed and after the JSIGHT-in-an-included-file check) and of `core/include.go
-processInclude` (a banned INCLUDE is refused before its file name is validated or looked up).
+processInclude` (after the directive written before it has been placed, a banned INCLUDE is refused before its file
+name is validated or looked up).
 -/
 namespace JSight
 open Gen
@@ -47,6 +48,9 @@ def scanIncFileB (banned : List Kind) (fs : FS) : Nat → List (Nat × Nat) → 
         | .error e => .error (.ctx e)
         | .ok c => scanIncFileB banned fs fuel stack cur (pos + 1) rest { st' with ctx := c }
     | .incl f valid =>
+      match flushPendingB st with
+      | .error e => .error e
+      | .ok st =>
       if banned.contains Kind.Include then .error (.notAllowed cur pos)
       else if !valid then .error (.inc (.badName cur pos))
       else match fs.get? f with
